@@ -61,6 +61,21 @@ Theorem C20_start_reports_version : forall d rid rkey h,
 Proof. exact start_reports_version. Qed.
 Print Assumptions C20_start_reports_version.
 
+(** A start with a changed structure that is KILLED while it rewrites its files (after any number
+    of completed, individually atomic writes — the order of the writes is read from config.go on
+    this run) and is then repeated still yields a greater configuration number. *)
+Theorem C20_interrupted_start_still_increases : forall n d oh h v,
+  d_hash d = Some oh -> oh <> [] -> h <> [] -> eqb_bytes oh h = false -> d_version d = Some v ->
+  v < ver_after_restart (order_of Extracted.cfg_save_keys) n d h.
+Proof. intros n d oh h v. apply interrupted_start_still_increases. exact source_save_order. Qed.
+Print Assumptions C20_interrupted_start_still_increases.
+
+Theorem C20_hash_first_refuted :
+  let d := fst (start empty_disk [65] 7 [1]) in
+  d_version d = Some 1 /\ ver_after_restart [KHash; KUuid; KVersion] 1 d [2] = 1 /\
+  ver_after_restart [KUuid; KVersion; KHash] 1 d [2] = 2.
+Proof. exact hash_first_loses_the_increase. Qed.
+
 (** "never because characteristic values changed": two attribute databases that differ only in
     "value" members (changed, added or removed, at any depth) have the same hash input. *)
 Theorem C20_values_do_not_reach_the_hash :
